@@ -265,6 +265,7 @@ func c13(x *runCtx) {
 	}
 	x.c.flush()
 	c13Mac(x, r)
+	c13Options(x)
 }
 
 func flipBit(b []byte, i int) []byte {
